@@ -220,3 +220,63 @@ def decode_obs(o):
         except Exception:
             return m.group(0)
     return re.sub(r'\bx((?:[0-9a-f]{2})+)\b', rep, o or '')
+
+
+# ---------- float display tables ----------
+_FLOAT_TOK = re.compile(r'(?:(?<=[\[,:{ ]))d(\d+)\b')
+
+
+def add_float_tables(lines, extra_bits=()):
+    """serde_json's float printing is not modelled: ask the harness for the display of every
+    float bit pattern occurring in the cases and prepend an `ft` op to the lines that need it"""
+    need = {}
+    allbits = set(extra_bits)
+    for l in lines:
+        bs = set(int(b) for b in _FLOAT_TOK.findall(l))
+        if bs:
+            need[l] = bs
+            allbits |= bs
+    if not allbits:
+        return lines
+    bl = sorted(allbits)
+    q = [f'q{i} leaf render d{b}' for i, b in enumerate(bl)]
+    r = run_impl(q, tag='ft')
+    disp = {}
+    for i, b in enumerate(bl):
+        v = r.get(f'q{i}', '')
+        if v.startswith('x'):
+            disp[b] = v
+    out = []
+    for l in lines:
+        bs = need.get(l)
+        if bs or extra_bits:
+            use = sorted(set(bs or ()) | set(extra_bits))
+            cid, rest = l.split(' ', 1)
+            tbl = ','.join(f'{b}={disp[b]}' for b in use if b in disp)
+            out.append(f'{cid} ft {tbl} ; {rest}' if tbl else l)
+        else:
+            out.append(l)
+    return out
+
+
+def parse_robs(tok):
+    """one render observation token -> dict"""
+    if tok is None:
+        return {'kind': 'none'}
+    if tok in ('PANIC', 'FUEL', 'ABORT', 'TIMEOUT'):
+        return {'kind': tok.lower()}
+    p = tok.split(':')
+    if p[0] != 'R':
+        return {'kind': 'other', 'raw': tok}
+    if p[1] == 'ok':
+        return {'kind': 'ok', 'out': unx(p[2]), 'log': unx(p[3]), 'nwrites': p[4]}
+    return {'kind': 'err', 'reason': p[2], 'payload': p[3], 'tpl': (unx(p[4]) if p[4] != '-' else None),
+            'line': (int(p[5]) if p[5] not in ('-', '?') else None),
+            'col': (int(p[6]) if p[6] not in ('-', '?') else None),
+            'accepted': (unx(p[7]) if p[7] != '-' else None), 'log': unx(p[8])}
+
+
+def last_obs(obsline):
+    if not obsline:
+        return None
+    return obsline.split(' ')[-1]
